@@ -367,6 +367,7 @@ func main() {
 		run.Distinct(fmt.Sprintf("built:%d", i))
 	})
 
+	tokenLifetimePhase()
 	phase("builder + TimestampAndMarshal")
 	// ---------------- 3. relic's pipeline, OpenSSL tokens, catalogs (sequential: one process-wide config) ----------------
 	srv := startLoopbackTSA()
@@ -432,7 +433,7 @@ func main() {
 	run.Set("operations", []string{"pkcs7.Unmarshal -> Marshal (+ second round trip)", "Detach -> Marshal", "AddStampToSignedData / AddStampToSignedAuthenticode on the parsed structure -> Marshal -> round trip",
 		"ber.DecodePacketErr(...).Bytes() as in csblob.parseSignature / xar.Verify on the DER form and on two indefinite-length BER forms",
 		"pkcs7.NewBuilder...Sign -> pkcs9.TimestampAndMarshal (authority answer through pkcs9.NewRequest / ParseResponse) [-> Detach -> Marshal]",
-		"relic sign pipeline (ps, cab, pe-coff, cat, jar, xar, macho) with and without the loopback openssl authority", "cat signer on hyperv.cat, on its own output (x2) and on dergen catalogs"})
+		"timestamp tokens obtained through relic's own tsclient over loopback HTTP (authority side: dergen / openssl ts); 8 requests in a row through one client, every earlier token re-marshalled and re-verified after each later reply", "relic sign pipeline (ps, cab, pe-coff, cat, jar, xar, macho) with and without the loopback openssl authority", "cat signer on hyperv.cat, on its own output (x2) and on dergen catalogs"})
 	dk := map[string]int64{}
 	devKnown.Range(func(k, v any) bool { dk[k.(string)] = *(v.(*int64)); return true })
 	if len(dk) > 0 {
